@@ -198,27 +198,54 @@ def r8_constant_path(ctx):
   ctx.rule(R, 'constants are quantized with the very parameters that are annotated on the tensor', floor=1)
   f = ctx.repo.func(f'{shared.MMU}:_get_tensor_quant_params')
   ctx.instance(R)
-  ctor = [c for c in common.calls_in(f.node) if common.call_name(c).endswith('UniformQuantParams')]
-  if not ctx.check(R, len(ctor) == 2, f.node, f, f'{len(ctor)} UniformQuantParams constructions', 'expected the parameters and their copy carrying the quantized data'):
-    return
-  a = {k.arg: defuse.norm(k.value) for k in ctor[0].keywords}
-  b = {k.arg: defuse.norm(k.value) for k in ctor[1].keywords}
-  qd = b.pop('quantized_data', None)
-  ctx.check(R, a == b, f.node, f, 'params used for quantisation == params returned', f'data is quantized with {a} but the tensor is annotated with {b}')
-  ctx.check(R, qd == 'quantized_vars', f.node, f, f'quantized_data={qd}', 'the returned params must carry the quantized data')
-  uq = [c for c in common.calls_in(f.node) if common.call_name(c).endswith('uniform_quantize')]
-  ok = len(uq) == 1 and [defuse.norm(x) for x in uq[0].args] == ['tensor_content', 'quant_params']
-  ctx.check(R, ok, f.node, f, 'uniform_quantize(tensor_content, quant_params)', 'the tensor content must be quantized with the parameters just computed')
+  content = f.pos_params[3] if len(f.pos_params) > 3 else 'tensor_content'
+  n_data = n_plain = 0
+  for p in defuse.paths(f.node):
+    if p.raises is not None or p.ret is None:
+      continue
+    r = p.ret
+    if not (isinstance(r, ast.Call) and common.call_name(r).endswith('UniformQuantParams')):
+      ctx.check(R, False, f.node, f, f'return {defuse.norm(r)[:60]} when {p.cond_text()[:80]}', 'the result must be a UniformQuantParams')
+      continue
+    kw = {k.arg: k.value for k in r.keywords}
+    qd = kw.pop('quantized_data', None)
+    annotated = {k: defuse.norm(v) for k, v in kw.items()}
+    no_content = any(defuse.norm(c) == f'{content} is None' and t for c, t in p.conds)
+    if qd is None or (isinstance(qd, ast.Constant) and qd.value is None):
+      n_plain += 1
+      ctx.check(R, no_content, f.node, f, f'no quantized data when {p.cond_text()[:100]}', 'a constant whose content is known is annotated without quantized data')
+      continue
+    n_data += 1
+    ok = isinstance(qd, ast.Call) and common.call_name(qd).split('.')[-1] in ('uniform_quantize', 'uniform_quantize_for_emulated_subchannel') and len(qd.args) >= 2
+    if not ctx.check(R, ok, f.node, f, f'quantized_data={defuse.norm(qd)[:80]}', 'the returned params must carry the data quantized by uniform_quantize'):
+      continue
+    ctx.check(R, defuse.norm(qd.args[0]) == content, f.node, f, f'quantized content = {defuse.norm(qd.args[0])[:60]}', 'the content that is quantized must be the tensor content handed in')
+    used = qd.args[1]
+    uk = {k.arg: defuse.norm(k.value) for k in used.keywords} if isinstance(used, ast.Call) and common.call_name(used).endswith('UniformQuantParams') else None
+    ctx.check(R, uk == annotated, f.node, f, 'params used for quantisation == params returned',
+              f'data is quantized with {uk} but the tensor is annotated with {annotated}')
+  ctx.check(R, n_data >= 2 and n_plain >= 1, f.node, f, f'{n_data} paths with data, {n_plain} without', 'expected blockwise / plain paths with data and the content-less path')
   w = ctx.repo.func(f'{shared.MMU}:_get_tensor_transformation_params_wrapper')
+  ctx.instance(R)
+  ann = {x.arg: ast.unparse(x.annotation) for x in w.node.args.args if x.annotation is not None}
+  graph_ps = [k for k, v in ann.items() if v.endswith('GraphInfo')]
+  if len(graph_ps) != 1:
+    raise index.AnalysisError(f'{w.fq}: no single GraphInfo parameter ({w.pos_params})')
+  tensor_p, graph_p = w.pos_params[0], graph_ps[0]
   call = [c for c in common.calls_in(w.node) if common.call_name(c).endswith('_get_tensor_quant_params')]
-  ok = len(call) == 1 and any(k.arg == 'tensor_content' and defuse.norm(k.value) == 'tensor_data' for k in call[0].keywords)
-  ctx.check(R, ok, w.node, w, 'tensor_content=tensor_data', 'the content that is quantized must be the data of the tensor being materialised')
   inl = defuse.Inliner(ctx.repo, max_depth=0)
-  td = defuse.norm(inl.inline(w, ast.Name(id='tensor_data', ctx=ast.Load())))
-  ctx.check(R, td == 'tfl_flatbuffer_utils.get_tensor_data(tensor, graph_info.buffers)', w.node, w, f'tensor_data = {td}', 'tensor data must be read from the tensor\'s own buffer')
+  if ctx.check(R, len(call) == 1, w.node, w, '_get_tensor_quant_params call', 'one computation of the parameters expected'):
+    kv = {k.arg: k.value for k in call[0].keywords}
+    arg = kv.get(content, call[0].args[3] if len(call[0].args) > 3 else None)
+    td = defuse.norm(inl.inline(w, arg)).replace('tfl_flatbuffer_utils.', '') if arg is not None else None
+    ctx.check(R, td == f'get_tensor_data({tensor_p}, {graph_p}.buffers)', call[0], w, f'{content}={td}',
+              'the content that is quantized must be the data of the tensor being materialised, read from its own buffer')
   gd = ctx.repo.func('utils.tfl_flatbuffer_utils:get_tensor_data')
-  src = defuse.norm(gd.node)
-  ctx.check(R, 'buffers[tensor.buffer]' in src and 'TENSOR_CODE_TO_TYPE[tensor.type]' in src and 'np.reshape(data, tensor.shape)' in src, gd.node, gd, 'decode by the tensor\'s own buffer / dtype / shape', 'constant data must be decoded with the tensor\'s own buffer, dtype and shape')
+  ctx.instance(R)
+  t, b = gd.pos_params[:2]
+  rets = [defuse.norm(p.ret) for p in defuse.paths(gd.node) if p.raises is None and p.ret is not None and not (isinstance(p.ret, ast.Constant) and p.ret.value is None)]
+  want = f'np.reshape(np.frombuffer({b}[{t}.buffer].data, dtype=TENSOR_CODE_TO_TYPE[{t}.type].lower()), {t}.shape)'
+  ctx.check(R, rets == [want], gd.node, gd, f'returns {rets}', 'constant data must be decoded with the tensor\'s own buffer, dtype and shape')
 
 
 def run(ctx):
